@@ -192,8 +192,18 @@ impl Tileset<RawPixels> {
                 None
             } else {
                 let _compressed_length = reader.dword()?;
-                let expected_pixel_count =
-                    (tile_count * (tile_height as u32) * (tile_width as u32)) as usize;
+                // Computed in usize with overflow checks: the product of the three
+                // file-supplied values does not fit into a u32 in general.
+                let expected_pixel_count = (tile_count as usize)
+                    .checked_mul(tile_height as usize)
+                    .and_then(|n| n.checked_mul(tile_width as usize))
+                    .filter(|n| n.checked_mul(pixel_format.bytes_per_pixel()).is_some())
+                    .ok_or_else(|| {
+                        AsepriteParseError::InvalidInput(format!(
+                            "Tileset size is too large: {} tiles of {}x{} pixels",
+                            tile_count, tile_width, tile_height
+                        ))
+                    })?;
                 RawPixels::from_compressed(reader, pixel_format, expected_pixel_count).map(Some)?
             }
         };
